@@ -1,5 +1,6 @@
 import asyncio
 import concurrent.futures
+import itertools
 import logging
 import multiprocessing
 import multiprocessing.queues
@@ -196,6 +197,9 @@ class Server:
         self._uid_to_futures = {}
         # Size of this dict is capped at `self._capacity`.
         # A few places need to enforce this size limit.
+        self._uid_counter = itertools.count()
+        # Request IDs must never be reused: an ID may still be inside the servlets
+        # (e.g. a slow member of a fail-fast ensemble) after its request has been answered.
 
     def __getstate__(self):
         raise TypeError(f"cannot pickle '{self.__class__.__name__!r}' object")
@@ -308,7 +312,7 @@ class Server:
             't1': t0,  # end of enqueuing, to be updated
             'deadline': t0 + timeout,
         }
-        uid = id(fut)
+        uid = next(self._uid_counter)
 
         with self._pipeline_notfull:
             while len(pipeline) >= self._capacity:
@@ -494,6 +498,9 @@ class AsyncServer:
         self._uid_to_futures = {}
         # Size of this dict is capped at `self._capacity`.
         # A few places need to enforce this size limit.
+        self._uid_counter = itertools.count()
+        # Request IDs must never be reused: an ID may still be inside the servlets
+        # (e.g. a slow member of a fail-fast ensemble) after its request has been answered.
 
     def __getstate__(self):
         raise TypeError(f"cannot pickle '{self.__class__.__name__!r}' object")
@@ -556,7 +563,7 @@ class AsyncServer:
             't1': t0,  # end of enqueuing; to be updated
             'deadline': t0 + timeout,
         }
-        uid = id(fut)
+        uid = next(self._uid_counter)
 
         async with self._pipeline_notfull:
             while len(pipeline) >= self._capacity:
